@@ -223,6 +223,33 @@ def check(an, rep, tier):
     rep.add('V-show', 'vis.show', 'validator: 3-D cores, matching bonds, '
             'last rank 1', 'ok' if not miss else 'unknown',
             '' if not miss else 'validator changed: %s' % miss)
+    # the verdict of the validator, by abstract execution on literal shapes:
+    # a well-formed train is accepted, each kind of malformation is rejected
+    from ..values import ARR as _ARRv, LIST as _LISTv
+    from .common import dom3 as _dom3v
+
+    def _cores(shapes):
+        return _LISTv([_ARRv(tuple(Poly.const(x) for x in s_), 'f')
+                       for s_ in shapes])
+    for what, shapes, bad in (
+            ('a well-formed train', [(1, 3, 2), (2, 4, 3), (3, 2, 1)], False),
+            ('a well-formed pair', [(1, 3, 2), (2, 4, 1)], False),
+            ('right boundary rank 3', [(1, 3, 2), (2, 4, 3)], True),
+            ('left boundary rank 2', [(2, 3, 2), (2, 4, 1)], True),
+            ('bond mismatch 2 / 3', [(1, 3, 2), (3, 4, 1)], True),
+            ('a 2-axis core', [(1, 3, 2), (2, 4)], True)):
+        I_ = _interp.Interp(prog, {})
+        try:
+            I_.run_function(fn, {'Y': _cores(shapes)})
+        except Exception as e_:
+            rep.unknown('V-show', 'vis.show', what, repr(e_))
+            continue
+        st_v, d_v = _dom3v(I_.raises, I_.entry_returns, bad)
+        rep.add('V-show', 'vis.show', '%s is %s' % (
+            what, 'rejected' if bad else 'accepted'), st_v,
+            '' if st_v == 'ok' else 'the validator\'s verdict on %s (core '
+            'shapes %s) is wrong: %s' % (what, shapes, d_v),
+            line=fn.node.lineno, file=fn.module.path)
     rep.floor('S-ret', 80, 'TT results typed')
     rep.floor('G-div', 8, 'guarded divisions')
     rep.floor('S-floor', 2, 'rank floors')
